@@ -142,6 +142,7 @@ func doCall(e *twig.Engine, c *sCall) {
 		"u":  stressUser{stressInner: stressInner{Tag: "t" + c.X}, Name: c.X, Inner: stressInner{Tag: "i" + c.X}},
 		"p":  &stressUser{Name: "p" + c.X, Inner: stressInner{Tag: "j" + c.X}},
 		"tm": map[string]string{"k": "k" + c.X}}
+	poolCaller(ctx)
 	var out string
 	var err error
 	switch c.Op {
